@@ -3453,3 +3453,62 @@ func ruleFlagsDistinctTargets(w *World, r *Report, rule, cmdType string) {
 	}
 	r.Check(bad == "" && n > 0, rule, cmdType+".Parse:flags-distinct", w.pos(f.Pos()), fmt.Sprintf("%d options, each with a field of its own", n), cmdType+".Parse: "+bad+": one of them overwrites the other and the field the second should set keeps its zero value")
 }
+
+// ruleAddSaturates: Timestamp.Add with a negative duration does not wrap below the epoch: its subtraction is reached
+// only on the outcome of a test that found the amount no larger than the time (the other outcome returns 0). The age
+// cut-offs `now.Add(-retention)` of fetch, update and the batch partition rely on it for layouts whose retention
+// reaches back before 1970.
+func ruleAddSaturates(w *World, r *Report, rule string) {
+	f := fn(w.Lib, "Timestamp.Add")
+	if f == nil || len(f.Params) != 2 {
+		r.Undecided(rule, "Timestamp.Add:saturates-at-epoch", "-", "Timestamp.Add not found")
+		return
+	}
+	bad := ""
+	n := 0
+	eachInstr(f, func(in ssa.Instruction) {
+		bo, ok := in.(*ssa.BinOp)
+		if !ok || bo.Op != token.SUB || bo.X != ssa.Value(f.Params[0]) {
+			return
+		}
+		n++
+		// a dominating comparison between the amount subtracted and t whose other outcome returns a constant
+		guarded := false
+		for _, b := range f.Blocks {
+			if len(b.Instrs) == 0 {
+				continue
+			}
+			iff, isIf := b.Instrs[len(b.Instrs)-1].(*ssa.If)
+			if !isIf {
+				continue
+			}
+			cond, _ := stripNot(iff.Cond)
+			cmp, isCmp2 := cond.(*ssa.BinOp)
+			if !isCmp2 || !isCmp(cmp.Op) {
+				continue
+			}
+			xs, ys := newExprCtx(w).expr(cmp.X), newExprCtx(w).expr(cmp.Y)
+			amt := newExprCtx(w).expr(bo.Y)
+			if !((xs == "p0" && ys == amt) || (ys == "p0" && xs == amt)) {
+				continue
+			}
+			for k, sc := range b.Succs {
+				if edgeDominates(b, sc, bo.Block()) {
+					// the other outcome ends in a constant return
+					other := b.Succs[1-k]
+					for _, in2 := range other.Instrs {
+						if rt, isRet := in2.(*ssa.Return); isRet && len(rt.Results) == 1 {
+							if _, isK := rt.Results[0].(*ssa.Const); isK {
+								guarded = true
+							}
+						}
+					}
+				}
+			}
+		}
+		if !guarded {
+			bad = "the subtraction at " + w.instrPos(bo) + " is not guarded against an amount larger than the time"
+		}
+	})
+	r.Check(bad == "" && n > 0, rule, "Timestamp.Add:saturates-at-epoch", w.pos(f.Pos()), "t minus a larger amount gives 0, not a wrapped time", "Timestamp.Add: "+bad+": for a layout whose retention reaches back before 1970 (1d:60y) now.Add(-retention) wraps to a time in the far future, so every update is refused as too old and every fetch answers `no series`")
+}
